@@ -136,7 +136,8 @@ class Seams:
       fault        {"kind": "oserror"|"crash"|"write_oserror"|"write_crash"|"extprog_fail", ...}
       buffering    int: buffer size given to real open() for sandbox write-opens (transparent tuning knob)
       chunk_seed   int: re-cut the output of every Template.generate() call
-      extprog      "ok" -> fake formatter edits in place
+      extprog      "ok" -> fake formatter edits in place; "rename" -> temp file + rename; "crlf" -> line-ending normaliser
+      extra_support_files  {"lang": ..., "paths": [...]}: plain headers the language's support package ships
     """
 
     def __init__(self, plan: dict, sink: typing.Optional[typing.Callable[[list], None]] = None):
@@ -370,29 +371,38 @@ class Seams:
 
         n = self.extprog_calls
         self.extprog_calls += 1
-        target = run_args[-1]
-        self.record("extprog", self.rel(target), n)
+        # like clang-format -i or a linter, the fake program works on EVERY file named on its command line (the
+        # arguments after the program name that are files of the sandbox), not only on the last one
+        targets = [a for a in run_args[1:] if isinstance(a, str) and os.path.isfile(a) and bool(self.sandbox) and os.path.realpath(a).startswith(str(self.sandbox) + os.sep)]
+        if not targets:
+            targets = [run_args[-1]]
+        self.record("extprog", self.rel(targets[-1]), n)
         flt = self.fault
         if flt is not None and not self.fault_fired and flt["kind"] == "extprog_fail" and flt["at"] == n:
             self.fire("extprog_fail call=%d" % n)
             if check:
                 raise subprocess.CalledProcessError(1, run_args)
             return subprocess.CompletedProcess(run_args, 1)
-        with open(target, "r", encoding="utf-8", newline="") as f:
-            text = f.read()
-        # like real formatters and linters (include-guard fixers, banner writers) the fake one is sensitive to the NAME
-        # of the file it is given: the base name goes into the text it appends
-        base = os.path.basename(target)
-        text = text.replace("\t", "    ") + ("\n/* formatted %s */\n" % base if not target.endswith((".py", ".html")) else "\n# formatted %s\n" % base if target.endswith(".py") else "\n<!-- formatted %s -->\n" % base)
-        if self.plan.get("extprog") == "rename":
-            # a formatter that writes a temporary file and renames it over the original (new inode, default mode)
-            tmp = target + ".fmt-tmp"
-            with open(tmp, "w", encoding="utf-8", newline="") as f:
-                f.write(text)
-            os.replace(tmp, target)
-        else:
-            with open(target, "w", encoding="utf-8", newline="") as f:
-                f.write(text)
+        for target in targets:
+            with open(target, "r", encoding="utf-8", newline="") as f:
+                text = f.read()
+            if self.plan.get("extprog") == "crlf":
+                # a line-ending normaliser: LF -> CRLF, nothing else
+                text = text.replace("\r\n", "\n").replace("\n", "\r\n")
+            else:
+                # like real formatters and linters (include-guard fixers, banner writers) the fake one is sensitive to
+                # the NAME of the file it is given: the base name goes into the text it appends
+                base = os.path.basename(target)
+                text = text.replace("\t", "    ") + ("\n/* formatted %s */\n" % base if not target.endswith((".py", ".html")) else "\n# formatted %s\n" % base if target.endswith(".py") else "\n<!-- formatted %s -->\n" % base)
+            if self.plan.get("extprog") == "rename":
+                # a formatter that writes a temporary file and renames it over the original (new inode, default mode)
+                tmp = target + ".fmt-tmp"
+                with open(tmp, "w", encoding="utf-8", newline="") as f:
+                    f.write(text)
+                os.replace(tmp, target)
+            else:
+                with open(target, "w", encoding="utf-8", newline="") as f:
+                    f.write(text)
         return subprocess.CompletedProcess(run_args, 0)
 
     # ------------------------------------------------------------------ install
@@ -434,9 +444,37 @@ class Seams:
             pp.subprocess_run = self._fake_subprocess_run  # type: ignore
         if plan.get("chunk_seed") is not None:
             self._install_rechunker(plan["chunk_seed"])
+        if plan.get("extra_support_files"):
+            self._install_extra_support_files(plan["extra_support_files"])
         builtins.open = self._open  # type: ignore
         io.open = self._open  # type: ignore
         sys.addaudithook(self._hook)
+
+    def _install_extra_support_files(self, spec: dict) -> None:
+        """
+        The support package of a language ships a plain (non-template) header besides its templates - as a vendor's
+        language package may: {"lang": "c", "paths": [...]}. The files themselves live in the sandbox; the package's
+        documented list_support_files() entry point names them in addition to its own resources.
+        """
+        import importlib
+        import pathlib
+
+        from nunavut._utilities import ResourceType
+
+        mod = importlib.import_module("nunavut.lang.%s.support" % spec["lang"])
+        real = getattr(mod, "list_support_files", None)
+        if real is None:
+            raise SeamMissing("nunavut.lang.%s.support.list_support_files" % spec["lang"])
+        extra = [pathlib.Path(p) for p in spec["paths"]]
+
+        def list_support_files(resource_type: typing.Any = ResourceType.ANY) -> typing.Iterator[typing.Any]:
+            for p in real(resource_type):
+                yield p
+            if resource_type in (ResourceType.ANY, ResourceType.SERIALIZATION_SUPPORT):
+                for p in extra:
+                    yield p
+
+        mod.list_support_files = list_support_files  # type: ignore
 
     def _install_rechunker(self, seed: int) -> None:
         from nunavut.jinja.jinja2 import Template
